@@ -29,6 +29,7 @@ import (
 	"net/http/httptest"
 	"runtime"
 	"sort"
+	"strconv"
 	"strings"
 	"sync"
 	"time"
@@ -89,6 +90,7 @@ type vfMqStore struct {
 	watchCh chan map[string]*string
 	pending []map[string]*string // delete events not yet delivered to the watcher
 	watched bool
+	fenced  int // highest fence number the store loop has applied
 }
 
 var _ storage = (*vfMqStore)(nil)
@@ -123,6 +125,12 @@ func (s *vfMqStore) getPrefix(prefix string, keysOnly bool) (map[string]string, 
 
 func (s *vfMqStore) put(key, value string) error {
 	if key == sessionStoreKey(vfMqFenceKey) {
+		n, _ := strconv.Atoi(value)
+		s.mu.Lock()
+		if n > s.fenced {
+			s.fenced = n
+		}
+		s.mu.Unlock()
 		return nil
 	}
 	s.mu.Lock()
@@ -316,6 +324,7 @@ type vfMqRig struct {
 	rec     *vfMqRecorder
 	addr    string
 	clients []*vfMqClient
+	fenceNo int
 	// evidence counters
 	SawFanout, SawDelete, SawStore int
 }
@@ -327,7 +336,14 @@ func vfMqNewRig(spec *Spec) (*vfMqRig, error) {
 	spec.Name, spec.EGName, spec.Port = "vfmq", "vfmq", 0
 	spec.Rules = []*Rule{{When: &When{PacketType: Publish}, Pipeline: vfMqPublishPipeline}}
 	r := &vfMqRig{store: vfMqNewStore(), rec: &vfMqRecorder{}}
-	r.broker = newBroker(spec, r.store, &vfMqMapper{rec: r.rec}, func(string, string) ([]string, error) { return nil, nil })
+	// newBroker returns nil when it cannot listen; on a machine where many checks open sockets
+	// at once the ephemeral port range can be exhausted for a moment: retry for a while
+	for attempt := 0; attempt < 40 && r.broker == nil; attempt++ {
+		if attempt > 0 {
+			time.Sleep(time.Duration(attempt) * 50 * time.Millisecond)
+		}
+		r.broker = newBroker(spec, r.store, &vfMqMapper{rec: r.rec}, func(string, string) ([]string, error) { return nil, nil })
+	}
 	if r.broker == nil {
 		return nil, errors.New("newBroker returned nil (cannot listen)")
 	}
@@ -355,6 +371,27 @@ func (r *vfMqRig) Close() {
 	}
 	for _, id := range ids {
 		r.broker.sessMgr.delLocal(id)
+	}
+	// The store loop is gone now; session writes that were still on their way would sit in their
+	// sender goroutines for ever (and be mistaken for pending writes by the next case's fence).
+	deadline := time.Now().Add(2 * time.Second)
+	for time.Now().Before(deadline) {
+		select {
+		case <-r.broker.sessMgr.storeCh:
+			continue
+		default:
+		}
+		st := vfMqStacks()
+		pending := false
+		for _, s := range vfMqStoreFrames {
+			if strings.Contains(st, s) {
+				pending = true
+			}
+		}
+		if !pending {
+			break
+		}
+		time.Sleep(200 * time.Microsecond)
 	}
 }
 
@@ -400,18 +437,27 @@ func (r *vfMqRig) StoreFence() error {
 	if err != nil {
 		return err
 	}
-	// doStore handles one write at a time: once it accepts the fence, the earlier ones are applied
+	// the store loop applies writes one at a time in the order it takes them from storeCh: once it
+	// has applied the fence, everything handed over before is in the store
+	r.fenceNo++
 	select {
-	case r.broker.sessMgr.storeCh <- SessionStore{key: vfMqFenceKey}:
+	case r.broker.sessMgr.storeCh <- SessionStore{key: vfMqFenceKey, value: strconv.Itoa(r.fenceNo)}:
 	case <-time.After(vfMqWait):
 		return errors.New("session store loop does not accept writes")
 	}
-	select {
-	case r.broker.sessMgr.storeCh <- SessionStore{key: vfMqFenceKey}:
-	case <-time.After(vfMqWait):
-		return errors.New("session store loop does not accept writes")
+	deadline := time.Now().Add(vfMqWait)
+	for {
+		r.store.mu.Lock()
+		done := r.store.fenced >= r.fenceNo
+		r.store.mu.Unlock()
+		if done {
+			return nil
+		}
+		if time.Now().After(deadline) {
+			return errors.New("session store loop did not apply the fence")
+		}
+		time.Sleep(100 * time.Microsecond)
 	}
-	return nil
 }
 
 // FlushWatch delivers the queued delete events to the broker's watcher and waits until the
@@ -521,7 +567,16 @@ type vfMqClient struct {
 }
 
 func (r *vfMqRig) Dial(label string) (*vfMqClient, error) {
-	conn, err := net.DialTimeout("tcp", r.addr, vfMqWait)
+	var conn net.Conn
+	var err error
+	for attempt := 0; attempt < 40; attempt++ {
+		if attempt > 0 {
+			time.Sleep(time.Duration(attempt) * 50 * time.Millisecond)
+		}
+		if conn, err = net.DialTimeout("tcp", r.addr, vfMqWait); err == nil {
+			break
+		}
+	}
 	if err != nil {
 		return nil, err
 	}
@@ -817,8 +872,10 @@ func (c *vfMqClient) HalfClose() error {
 	return c.conn.CloseWrite()
 }
 
-// Kill closes the socket.
+// Kill aborts the connection (RST, like a crashed client). No FIN handshake means no TIME_WAIT
+// entry: thousands of cases per minute would otherwise exhaust the ephemeral port range.
 func (c *vfMqClient) Kill() {
+	c.conn.SetLinger(0)
 	c.conn.Close()
 }
 
